@@ -133,6 +133,7 @@ def run(ctx):
                  "harness/translate_rngflow.py (ast -> control skeleton of every function of the routing-problem package: calls into "
                  "np.random.* / .rvs(..), calls, branches, loops, try; name resolution, semantics and the discipline check are Coq "
                  "definitions in theories/PyRng.v)")
+    from props import pysem; pysem.run(ctx, pysem.GROUPS_FOR.get(ctx.pid, ()))
     ctx.assumptions += [
         "numpy's global generator, process boundaries and hash randomisation are runtime behaviour: observed on sampled environments, not proved",
         "np.random.seed(z) with an explicit z forgets the previous state (the only law assumed of the oracle in the theorems)",
